@@ -665,6 +665,13 @@ def value_to_bp(v, t):
 def const_value(f):
     """Read the value of a constant FNode (incl. constant array values)
     through accessors -> evaluator value."""
+    if f.is_array_value():
+        it = B.from_pytype(f.array_value_index_type())
+        d = const_value(f.array_value_default())
+        m = {}
+        for k, v in f.array_value_assigned_values_map().items():
+            m[const_value(k)] = const_value(v)
+        return ArrV(it, d, m)
     if f.is_bool_constant():
         return bool(f.constant_value())
     if f.is_int_constant():
@@ -676,11 +683,4 @@ def const_value(f):
         return int(f.constant_value())
     if f.is_string_constant():
         return f.constant_value()
-    if f.is_array_value():
-        it = B.from_pytype(f.array_value_index_type())
-        d = const_value(f.array_value_default())
-        m = {}
-        for k, v in f.array_value_assigned_values_map().items():
-            m[const_value(k)] = const_value(v)
-        return ArrV(it, d, m)
     raise EvalError('not a constant: %s' % f)
